@@ -89,6 +89,7 @@ type state struct {
 	FeeAcc []big    `json:"feeAcc"` // [d0,d1] raw
 	UpAcc  [][]big  `json:"upAcc"`  // per uptime per allDenoms
 	Recs   []recSt  `json:"recs"`
+	RemNow []big    `json:"remNow"` // per allDenoms: sum of the records' remaining amounts (raw 10^18) once accrual is brought up to now (on a branch)
 	LastUp int64    `json:"lastUp"` // pool.LastLiquidityUpdate ms
 	Dg     string   `json:"dg"`     // digest of everything above except T
 }
@@ -269,6 +270,29 @@ func (w *world) snapshot(ctx sdk.Context) state {
 			Rate: apphelp.BigD(r.IncentiveRecordBody.EmissionRate), Start: ms(r.IncentiveRecordBody.StartTime, w.t0), Up: ui})
 	}
 	sort.Slice(st.Recs, func(i, j int) bool { return st.Recs[i].ID < st.Recs[j].ID })
+	// the stored records lag behind: claimable amounts are computed with accrual up to
+	// now, so the matching "undistributed remainder" is the one after the same update
+	st.RemNow = make([]big, len(allDenoms))
+	func() {
+		cc, _ := ctx.CacheContext()
+		remNow := sdk.NewDecCoins()
+		defer func() {
+			recover()
+			for i, d := range allDenoms {
+				st.RemNow[i] = apphelp.BigD(remNow.AmountOf(d))
+			}
+		}()
+		if err := k.UpdatePoolUptimeAccumulatorsToNow(cc, w.poolID); err != nil {
+			return
+		}
+		rs, err := k.GetAllIncentiveRecordsForPool(cc, w.poolID)
+		if err != nil {
+			return
+		}
+		for _, r := range rs {
+			remNow = remNow.Add(r.IncentiveRecordBody.RemainingCoin)
+		}
+	}()
 	t := st.T
 	st.T = 0
 	bz, _ := json.Marshal(st)
@@ -822,13 +846,16 @@ func recordHistory(t *testing.T, tw *tracelog.Writer, seed int64, nops, drainEve
 		outc(ev, o)
 		if o.OK {
 			ev.Res = map[string]any{"got": apphelp.BigI(got)}
-			// there and straight back, on a discarded branch: exact-in both ways
-			var inAmt, outAmt osmomath.Int
-			if exactIn {
-				inAmt, outAmt = amt, got
-			} else {
-				inAmt, outAmt = got, amt
+			// there and straight back, on a discarded branch: exact-in both ways.
+			// what was actually charged / paid is read from the trader's balances
+			// (an exact-in swap stopped by the price limit consumes less than offered)
+			post := w.snapshot(w.Ctx)
+			ii, oi := 1, 0
+			if zfo {
+				ii, oi = 0, 1
 			}
+			inAmt := osmomath.NewIntFromBigInt(new(stdbig.Int).Sub(tracelog.DecBig(pre.UserB[who][ii]), tracelog.DecBig(post.UserB[who][ii])))
+			outAmt := osmomath.NewIntFromBigInt(new(stdbig.Int).Sub(tracelog.DecBig(post.UserB[who][oi]), tracelog.DecBig(pre.UserB[who][oi])))
 			var back osmomath.Int
 			bo := w.Peek(func(ctx sdk.Context) error {
 				p2 := w.pool(ctx)
